@@ -11,7 +11,12 @@ from translate import c39 as tr
 # case = {"pa": [[accL, accR], ...], "pb": [...], "ops": [["req", side, opt, kind] | ["dlv", side]], "hyp": bool}
 #   pa/pb   enableLocal / enableRemote answers of endpoint A / B, per option index
 #   req     side "A"/"B" calls will/wont/do/dont on option index opt
-#   dlv     the oldest command in flight FROM that side is delivered to the other side
+#   dlv     the oldest command in flight FROM that side is delivered to the other side (the bytes of it not delivered yet);
+#           ["dlv", side, "bytes"] hands them over one byte per dataReceived call;
+#           ["dlv2", side] delivers the TWO oldest commands in one dataReceived call (reported as two deliveries)
+#   part    ["part", side, n]: only the next n (1 or 2) bytes of the oldest command are delivered now -- never its last
+#           byte; the command takes effect when a later dlv completes it.  Invisible to the model (C38: segmentation of
+#           the wire is invisible), so these operations produce no observation of their own
 #   hyp     the case respects "policies accept the options they themselves request"
 
 OPT_BYTES = [b"\x01", b"\x03", b"\x1f", b"\x22"]
@@ -58,12 +63,30 @@ def _run(case):
         def disableRemote(self, option):
             log.append("dR")
 
-    ends = {"A": T(case["pa"]), "B": T(case["pb"])}
+    marks = []                          # positions in log where a negotiation command was dispatched
+
+    class T2(T):
+        def commandReceived(self, command, argument):
+            marks.append(len(log))
+            T.commandReceived(self, command, argument)
+
+    ends = {"A": T2(case["pa"]), "B": T2(case["pb"])}
     for n, t in ends.items():
         t.makeConnection(Tr(n))
+    off = {"A": 0, "B": 0}              # bytes of the oldest command already delivered
     out, nid = [], 0
+
+    def feed(to, data):
+        try:
+            ends[to].dataReceived(data)
+        except AssertionError:
+            log.append("!A")
+        except Exception as e:                          # anything else a handler raises is an observation too
+            log.append("!" + type(e).__name__)
+
     for op in case["ops"]:
         del log[:]
+        del marks[:]
         if op[0] == "req":
             _, sd, o, kind = op
             res = []
@@ -83,20 +106,44 @@ def _run(case):
                                lambda f, i=i: log.append(f"F{i}=ref" if f.check(telnet.OptionRefused)
                                                          else f"F{i}=?{f.type.__name__}"))
                 out.append(f"I{i}")
+        elif op[0] == "part":
+            frm = op[1]
+            to = "B" if frm == "A" else "A"
+            if chan[frm]:
+                n = min(op[2], 2 - off[frm])
+                if n > 0:
+                    feed(to, chan[frm][0][2][off[frm]:off[frm] + n])
+                    off[frm] += n
+            if log:                                     # a partial command must not have any visible effect
+                out.append("?early:" + ",".join(log))
         else:
             frm = op[1]
-            if not chan[frm]:
-                out.append("-")
-                continue
-            o, name, data = chan[frm].pop(0)
             to = "B" if frm == "A" else "A"
-            try:
-                ends[to].dataReceived(data)
-            except AssertionError:
-                log.append("!A")
-            except Exception as e:                      # anything else a handler raises is an observation too
-                log.append("!" + type(e).__name__)
-            out.append(f"{name}{o}:" + ",".join(log))
+            count = 2 if op[0] == "dlv2" else 1
+            heads = []
+            data = b""
+            while chan[frm] and len(heads) < count:
+                o, name, raw = chan[frm].pop(0)
+                heads.append((o, name))
+                data += raw[off[frm]:]
+                off[frm] = 0
+            if data:
+                if len(op) > 2 and op[2] == "bytes":
+                    for i in range(len(data)):
+                        feed(to, data[i:i + 1])
+                else:
+                    feed(to, data)
+            # split the log at the points where the commands were dispatched
+            if len(marks) >= len(heads):
+                bounds = [0] + marks[1:len(heads)] + [len(log)]
+            else:                                       # a command never reached commandReceived
+                bounds = [0] + [len(log)] * len(heads)
+            for k in range(count):
+                if k < len(heads):
+                    o, name = heads[k]
+                    out.append(f"{name}{o}:" + ",".join(log[bounds[k]:bounds[k + 1]]))
+                else:
+                    out.append("-")
     nopt = len(case["pa"])
     fin = ""
     for o in range(nopt):
@@ -120,7 +167,19 @@ def oracle(case, obs):
     body, fin = obs.split(" |", 1)
     steps = body.split(" ") if body else []
     issued, fired = [], []
-    for k, (op, st) in enumerate(zip(case["ops"], steps)):
+    flat_ops = []
+    for op in case["ops"]:
+        if op[0] == "part":
+            continue
+        flat_ops.append(op)
+        if op[0] == "dlv2":
+            flat_ops.append(op)
+    if any(st.startswith("?early") for st in steps):
+        return Failure(case, "a partially delivered command already had a visible effect: "
+                       + [st for st in steps if st.startswith("?early")][0], "partial-command-effect")
+    if len(flat_ops) != len(steps):
+        return Failure(case, "malformed observation", "log")
+    for k, (op, st) in enumerate(zip(flat_ops, steps)):
         if "!A" in st.split(":")[-1].split(",") or st == "!A":
             return Failure(case, f"op {k} {op}: an assertion inside a negotiation handler failed ({st})", "assertion-reached")
         if "!" in st:
@@ -129,7 +188,7 @@ def oracle(case, obs):
             return Failure(case, f"op {k} {op}: unexpected request result {st}", "unexpected-result")
         if op[0] == "req" and st.startswith("I"):
             issued.append(int(st[1:]))
-        if op[0] == "dlv" and ":" in st:
+        if op[0] in ("dlv", "dlv2") and ":" in st:
             for e in st.split(":", 1)[1].split(","):
                 if e.startswith("F"):
                     i = int(e[1:].split("=")[0])
@@ -206,7 +265,41 @@ def _explore(pa, pb, nopt, max_states, max_depth):
     return cases, len(seen)
 
 
+def _segment(rng, ops):
+    """decorate a run with wire segmentation: partial deliveries (cut after IAC, or after the verb) placed just before
+    the completing delivery or a few operations earlier, byte-wise deliveries, two commands coalesced in one delivery"""
+    out = []
+    for op in ops:
+        if op[0] == "dlv" and len(op) == 2:
+            r = rng.random()
+            if r < 0.35:
+                part = ["part", op[1], rng.choice([1, 2, 2])]
+                out.insert(rng.randrange(max(0, len(out) - 3), len(out) + 1), part)
+                out.append(op)
+            elif r < 0.5:
+                out.append(["dlv", op[1], "bytes"])
+            elif r < 0.6:
+                out.append(["dlv2", op[1]])
+            else:
+                out.append(op)
+        else:
+            out.append(op)
+    return out
+
+
+def _with_segmentation(rng, case, p):
+    if rng.random() >= p:
+        return case
+    n = len(DRAIN) if case.get("drained") else 0
+    core = case["ops"][:len(case["ops"]) - n]
+    return {**case, "ops": _segment(rng, core) + case["ops"][len(core):]}
+
+
 def gen(rng, tier):
+    return [_with_segmentation(rng, c, 0.6) for c in _gen(rng, tier)]
+
+
+def _gen(rng, tier):
     quick = tier == "quick"
     cases = []
     pols = [[False, False], [False, True], [True, False], [True, True]]
@@ -249,6 +342,13 @@ def corpus():
          "ops": [["req", "B", 0, "do"], ["dlv", "B"], ["req", "A", 0, "wont"], ["dlv", "A"], ["dlv", "A"], ["dlv", "B"]] + DRAIN},
         {"pa": [T], "pb": [[False, False]], "hyp": True, "drained": 12,
          "ops": [["req", "A", 0, "will"], ["req", "A", 0, "do"], ["dlv", "A"], ["dlv", "B"], ["req", "A", 0, "do"]] + DRAIN},
+        # a negotiation command cut exactly after the verb, the option byte arriving later (and cut after IAC; byte-wise;
+        # two commands coalesced)
+        {"pa": [T], "pb": [T], "hyp": True, "drained": 12,
+         "ops": [["req", "A", 0, "will"], ["part", "A", 2], ["req", "B", 0, "do"], ["dlv", "A"], ["part", "B", 1],
+                 ["dlv", "B", "bytes"]] + DRAIN},
+        {"pa": [T, T], "pb": [T, T], "hyp": True, "drained": 12,
+         "ops": [["req", "A", 0, "will"], ["req", "A", 1, "do"], ["dlv2", "A"], ["part", "B", 2], ["dlv2", "B"]] + DRAIN},
         {"pa": [[False, False]], "pb": [T], "hyp": False,
          "ops": [["req", "A", 0, "do"], ["dlv", "A"], ["dlv", "B"]]},          # assert enableRemote fails
         {"pa": [T, T], "pb": [T, [False, True]], "hyp": True, "drained": 12,
@@ -263,11 +363,14 @@ def to_coq(case):
 
     def op(o):
         if o[0] == "req":
-            return f"MReq {o[1]} {o[2]}%nat {msg[o[3]]}"
-        return f"MDlv {o[1]}"
+            return [f"MReq {o[1]} {o[2]}%nat {msg[o[3]]}"]
+        if o[0] == "part":
+            return []                         # segmentation of the wire is invisible to the model (C38)
+        return [f"MDlv {o[1]}"] * (2 if o[0] == "dlv2" else 1)
 
     opts = coq_list([f"{i}%nat" for i in range(len(case["pa"]))], "nat")
-    return f"({pol(case['pa'])}, {pol(case['pb'])}, {coq_list(map(op, case['ops']), 'mact')}, {opts})"
+    ops = [x for o in case["ops"] for x in op(o)]
+    return f"({pol(case['pa'])}, {pol(case['pb'])}, {coq_list(ops, 'mact')}, {opts})"
 
 
 def shrink(case):
@@ -299,11 +402,13 @@ SPEC = Spec(
          "flight), one case per explored edge followed by 12 alternating deliveries: one option, every "
          "enableLocal/enableRemote policy pair (quick: 4 of the 16), all requests allowed by the hypothesis, unbounded "
          "depth; two options sharing the channels to depth 6 (thorough 8); random runs of 4-40 operations on 1-3 options "
-         "with random policies; runs outside the hypothesis for the correspondence only; non-trivial = at least one "
-         "command was sent",
+         "with random policies; runs outside the hypothesis for the correspondence only; 60% of all runs are decorated with "
+         "wire segmentation (a command cut after IAC or after the verb with the rest arriving up to 3 operations later, "
+         "byte-wise delivery, two commands coalesced in one delivery); non-trivial = at least one command was sent",
     trusted=["translate/c39.py (fail-closed ast matcher for the dispatchers, maps, handlers and request methods)",
              "hand-written operational meaning of the generated tables in coq/C39/Model.v (tied by this correspondence run)",
-             "the harness's in-flight queue: commands are delivered one at a time, FIFO per direction"],
+             "the harness's in-flight queue: FIFO per direction; a command takes effect in the model when its last byte is "
+             "delivered (C38: segmentation of the wire is invisible to the parser)"],
     assumptions=["each endpoint's enableLocal/enableRemote answer depends on the option only",
                  "an endpoint calls will(opt) only if its enableLocal(opt) is true and do(opt) only if its enableRemote(opt) "
                  "is true (the property's hypothesis)"],
